@@ -5,7 +5,7 @@
    shadow's range bits are the device's after every history is C16's invariant (c03_range_is_device
    in props/C16.v closes the history clause). *)
 Require Import BMA.lib.Base BMA.lib.Reflect BMA.gen.GenTypes BMA.gen.GenPure BMA.lib.Prog BMA.gen.GenProg BMA.gen.GenMeta
-               BMA.lib.Encode BMA.gen.GenApi BMA.spec.Datasheet.
+               BMA.lib.Encode BMA.gen.GenApi BMA.lib.Run BMA.proofs.Generic BMA.spec.Datasheet.
 From Coq Require Import Lia.
 Open Scope N_scope.
 
@@ -19,12 +19,21 @@ Theorem c03_sample_range : forall lsb msb, lsb < 256 -> msb < 256 ->
   (Z.leb (-2048) (sext12 lsb msb) && Z.leb (sext12 lsb msb) 2047)%bool = true.
 Proof. intros lsb msb H0 H1. unfold sext12. finite_reflect. Qed.
 
-Theorem c03_unscaled : exists dec : list N -> res Measurement,
-  BMA400_get_unscaled_data = Read ds_AccXLSB_addr 6 (fun l => r <- lift_res (dec l) ;; Ret r) /\
-  forall b0 b1 b2 b3 b4 b5, b0 < 256 -> b1 < 256 -> b2 < 256 -> b3 < 256 -> b4 < 256 -> b5 < 256 ->
-    dec [b0; b1; b2; b3; b4; b5] = Ok (mk_Measurement (sext12 b0 b1) (sext12 b2 b3) (sext12 b4 b5)).
+(* the getters are stated on the register-level semantics (proofs/Generic.v: `sem`), so that only what they do counts - one burst
+   read of 6 bytes at 0x04, the decoded value, shadow and chip untouched apart from the read - not the order in which the generated
+   body happens to read the shadow and the bus *)
+Ltac getter_sem f :=
+  unfold f; cbv beta zeta; change (len (repeatN 0 6)) with 6;
+  cbn [bind read_register get_shadow sem]; cbv beta zeta.
+
+Theorem c03_unscaled : forall d c evs b0 b1 b2 b3 b4 b5,
+  fst (chip_read ds_AccXLSB_addr 6 c) = [b0; b1; b2; b3; b4; b5] ->
+  b0 < 256 -> b1 < 256 -> b2 < 256 -> b3 < 256 -> b4 < 256 -> b5 < 256 ->
+  sem BMA400_get_unscaled_data d c evs =
+    ADone (mk_Measurement (sext12 b0 b1) (sext12 b2 b3) (sext12 b4 b5)) d (snd (chip_read ds_AccXLSB_addr 6 c)) (evs ++ [EvRead ds_AccXLSB_addr 6]).
 Proof.
-  eexists. split; [reflexivity|]. intros b0 b1 b2 b3 b4 b5 H0 H1 H2 H3 H4 H5.
+  intros d c evs b0 b1 b2 b3 b4 b5 Hr H0 H1 H2 H3 H4 H5.
+  getter_sem BMA400_get_unscaled_data. change AccXLSB_ADDR with ds_AccXLSB_addr. rewrite Hr.
   cbv [Measurement_from_bytes_unscaled idx nth_error N.to_nat Pos.to_nat Pos.iter_op Nat.add rbind Measurement_new].
   rewrite !c03_sample by assumption. reflexivity.
 Qed.
@@ -44,14 +53,15 @@ Lemma scaled_sample : forall lsb msb r, lsb < 256 -> msb < 256 -> r < 256 ->
   = Ok (range_factor r * sext12 lsb msb)%Z.
 Proof. intros lsb msb r H0 H1 H2. rewrite <- (scale_of_reg r H2). exact (scaled_sample_s (AccConfig1_scale r) lsb msb H0 H1). Qed.
 
-Theorem c03_scaled : exists dec : Config -> list N -> res Measurement,
-  BMA400_get_data = Read ds_AccXLSB_addr 6 (fun l => Get (fun d => r <- lift_res (dec d l) ;; Ret r)) /\
-  forall d b0 b1 b2 b3 b4 b5, get_acc_config_acc_config1 d < 256 ->
-    b0 < 256 -> b1 < 256 -> b2 < 256 -> b3 < 256 -> b4 < 256 -> b5 < 256 ->
-    let k := range_factor (get_acc_config_acc_config1 d) in
-    dec d [b0; b1; b2; b3; b4; b5] = Ok (mk_Measurement (k * sext12 b0 b1) (k * sext12 b2 b3) (k * sext12 b4 b5))%Z.
+Theorem c03_scaled : forall d c evs b0 b1 b2 b3 b4 b5,
+  fst (chip_read ds_AccXLSB_addr 6 c) = [b0; b1; b2; b3; b4; b5] -> get_acc_config_acc_config1 d < 256 ->
+  b0 < 256 -> b1 < 256 -> b2 < 256 -> b3 < 256 -> b4 < 256 -> b5 < 256 ->
+  let k := range_factor (get_acc_config_acc_config1 d) in
+  sem BMA400_get_data d c evs =
+    ADone (mk_Measurement (k * sext12 b0 b1) (k * sext12 b2 b3) (k * sext12 b4 b5))%Z d (snd (chip_read ds_AccXLSB_addr 6 c)) (evs ++ [EvRead ds_AccXLSB_addr 6]).
 Proof.
-  eexists. split; [reflexivity|]. intros d b0 b1 b2 b3 b4 b5 Hd H0 H1 H2 H3 H4 H5 k.
+  intros d c evs b0 b1 b2 b3 b4 b5 Hr Hd H0 H1 H2 H3 H4 H5 k.
+  getter_sem BMA400_get_data. change AccXLSB_ADDR with ds_AccXLSB_addr. rewrite Hr.
   cbv [Measurement_from_bytes_scaled idx nth_error N.to_nat Pos.to_nat Pos.iter_op Nat.add Measurement_new Config_scale AccConfig_scale].
   change (AccConfig_acc_config1 (Config_acc_config d)) with (get_acc_config_acc_config1 d).
   cbv [rbind]. rewrite !scaled_sample by assumption. reflexivity.
